@@ -6,7 +6,7 @@ cd $V
 miss=0
 for d in seeded/${1:-*}/; do
   n=$(basename $d)
-  prop=$(python3 -c "import json,sys; print(json.load(open('$d/meta.json'))['property'])")
+  prop=$(python3 -c "import json,sys; print(json.load(open('$d/meta.json'))['property'][:3])")
   line=$(tools/seedtest2.sh $n $prop 2>&1 | head -1)
   echo "$line" | cut -c1-200
   echo "$line" | grep -q 'rc=1 ' || miss=$((miss+1))
